@@ -332,6 +332,9 @@ pub fn exec_scenario(ctx: &ExecCtx, wd: &Workdir, scn: &Scenario, built: &Built)
         if exit == Exit::Code(99) {
             return Err(format!("hook rejected the plan: {}", String::from_utf8_lossy(&fs::read(&err_path).unwrap_or_default())));
         }
+        if let Ok(keep) = std::env::var("RBPSIM_KEEP_TRACE") {
+            let _ = fs::copy(&trace_path, format!("{}.{}", keep, ri));
+        }
         let trace = parse_trace(&fs::read_to_string(&trace_path).unwrap_or_default());
         ctx.runs_done.fetch_add(1, Ordering::Relaxed);
         ctx.events_seen.fetch_add(trace.len() as u64, Ordering::Relaxed);
